@@ -96,10 +96,14 @@ func (t *Dense) SafeT(axes ...int) (retVal *Dense, err error) {
 	retVal.oe = t.oe
 	retVal.AP = transform
 	if !noop {
-		// only a real transposition is pending on the copy: recording one for a no-op
-		// makes the next T() on the copy look like its reversal
 		t.AP.CloneTo(&retVal.old)
 		retVal.transposeWith = append(BorrowInts(len(axes))[:0], axes...)
+	} else if !t.old.IsZero() {
+		// a no-op permutation makes a faithful copy: what is pending on the source is
+		// pending on the copy (recording the no-op itself as a pending transpose makes
+		// the next T() on the copy look like its reversal)
+		t.old.CloneTo(&retVal.old)
+		retVal.transposeWith = append(BorrowInts(len(t.transposeWith))[:0], t.transposeWith...)
 	}
 
 	return
